@@ -7,6 +7,14 @@ fn main() {
     cfgt4::add(&mut cfgs);
     cfgt5::add(&mut cfgs);
     cfgt6::add(&mut cfgs);
-    let reg = sut::Registry { cfgs, zeroize: sut::ZEROIZE, sweep: false };
+    cfgs1::add(&mut cfgs);
+    cfgs2::add(&mut cfgs);
+    cfgs3::add(&mut cfgs);
+    cfgs4::add(&mut cfgs);
+    cfgs5::add(&mut cfgs);
+    cfgs6::add(&mut cfgs);
+    cfgs7::add(&mut cfgs);
+    cfgs8::add(&mut cfgs);
+    let reg = sut::Registry { cfgs, zeroize: sut::ZEROIZE, sweep: true };
     std::process::exit(checks::main_with(reg, "mc-zfull"));
 }
